@@ -3,8 +3,9 @@
  *
  * The anchored .c files are #include'd (found through -I$VERIF_REPO) so that the probe can look at the private
  * structs (buffer pointers, referenced objects).  Everything else comes from the library archive built from the
- * same working tree.  Link with -Wl,--wrap=malloc,--wrap=calloc,--wrap=realloc (allocation-failure injection for
- * `failcopy k`).
+ * same working tree.  Link with -Wl,--wrap=malloc,--wrap=calloc,--wrap=realloc,--wrap=dup,--wrap=deflateInit2_,
+ * --wrap=inflateInit_,--wrap=ZSTD_createCCtx (failure injection for `failcopy k`: the k-th acquisition of memory, of a
+ * descriptor or of codec state inside sqfs_copy fails).
  *
  * Input: scenarios
  *     scenario <tag> <kind> [args]
@@ -24,6 +25,13 @@
 #include "lib/sqfs/src/dir_reader.c"
 #include "lib/sqfs/src/xattr/xattr_reader.c"
 #include "lib/sqfs/src/io/file.c"
+#include "lib/sqfs/src/comp/gzip.c"
+#define compress c19_xz_compress	/* xz.c has a static function of that name; zlib.h (through gzip.c) declares another */
+#include "lib/sqfs/src/comp/xz.c"
+#undef compress
+#include "lib/sqfs/src/comp/lzma.c"
+#include "lib/sqfs/src/comp/lz4.c"
+#include "lib/sqfs/src/comp/zstd.c"
 #include "lib/sqfs/src/xattr/xattr_writer.h"
 #include "sqfs/compressor.h"
 #include "sqfs/super.h"
@@ -53,6 +61,16 @@ static int alloc_should_fail(void)
 void *__wrap_malloc(size_t n) { return alloc_should_fail() ? NULL : __real_malloc(n); }
 void *__wrap_calloc(size_t a, size_t b) { return alloc_should_fail() ? NULL : __real_calloc(a, b); }
 void *__wrap_realloc(void *p, size_t n) { return alloc_should_fail() ? NULL : __real_realloc(p, n); }
+/* the other resources a copy hook acquires: a duplicated descriptor (stdio_copy), codec state (gzip, zstd) */
+int __real_dup(int);
+int __wrap_dup(int fd) { if (alloc_should_fail()) { errno = EMFILE; return -1; } return __real_dup(fd); }
+int __real_deflateInit2_(z_streamp, int, int, int, int, int, const char *, int);
+int __wrap_deflateInit2_(z_streamp s, int level, int method, int wbits, int memlevel, int strategy, const char *ver, int sz)
+{ return alloc_should_fail() ? Z_MEM_ERROR : __real_deflateInit2_(s, level, method, wbits, memlevel, strategy, ver, sz); }
+int __real_inflateInit_(z_streamp, const char *, int);
+int __wrap_inflateInit_(z_streamp s, const char *ver, int sz) { return alloc_should_fail() ? Z_MEM_ERROR : __real_inflateInit_(s, ver, sz); }
+ZSTD_CCtx *__real_ZSTD_createCCtx(void);
+ZSTD_CCtx *__wrap_ZSTD_createCCtx(void) { return alloc_should_fail() ? NULL : __real_ZSTD_createCCtx(); }
 
 /* ------------------------------------------------------------------ small helpers */
 static void out(const char *fmt, ...)
@@ -92,7 +110,7 @@ static int count_fds(void)
 	return n - 3;	/* ., .., the dirfd itself */
 }
 
-enum { K_COMP, K_IDT, K_FRAGT, K_FILE, K_META, K_DIR, K_DATA, K_XRD, K_XWR };
+enum { K_COMP, K_IDT, K_FRAGT, K_FILE, K_META, K_DIR, K_DATA, K_XRD, K_XWR, K_WFILE };
 #define NOBJ 4		/* o, c, t1, t2 */
 static const char *objname[NOBJ] = { "o", "c", "t1", "t2" };
 
@@ -111,6 +129,7 @@ typedef struct {
 	char path[4096];
 	sqfs_u32 dirflags;
 	char tmpdir[4096];
+	int wfile_seq;
 	/* probe bookkeeping */
 	size_t file_rc_before, cmp_rc_before;
 } env_t;
@@ -133,6 +152,14 @@ static void *make_object(void)
 	case K_IDT: return sqfs_id_table_create(0);
 	case K_FRAGT: return sqfs_frag_table_create(0);
 	case K_FILE: { sqfs_file_t *f = NULL; if (sqfs_file_open(&f, E.path, SQFS_FILE_OPEN_READ_ONLY)) return NULL; return f; }
+	case K_WFILE: {	/* a file opened for writing: its copy hook refuses */
+		sqfs_file_t *f = NULL; char p[4200];
+		snprintf(p, sizeof(p), "%s/wf_%d_%d.bin", E.tmpdir, (int)getpid(), E.wfile_seq++);
+		if (sqfs_file_open(&f, p, SQFS_FILE_OPEN_OVERWRITE)) return NULL;
+		f->write_at(f, 0, "0123456789abcdef", 16);
+		unlink(p);
+		return f;
+	}
 	case K_META: return sqfs_meta_reader_create(E.file, E.cmp, E.super.inode_table_start, E.super.directory_table_start);
 	case K_DIR: return sqfs_dir_reader_create(&E.super, E.cmp, E.file, E.dirflags);
 	case K_DATA: {
@@ -175,6 +202,10 @@ static int setup(int argc, char **argv)	/* argv[0] = kind */
 		E.kind = K_COMP;
 		if (id < 0) return -1;
 		if (sqfs_compressor_config_init(&E.ccfg, id, 8192, unc ? SQFS_COMP_FLAG_UNCOMPRESS : 0)) return -1;
+		/* optional non-default configuration: level, gzip window, extra flags */
+		if (argc >= 4 && strcmp(argv[3], "-")) E.ccfg.level = strtoul(argv[3], 0, 0);
+		if (argc >= 5 && strcmp(argv[4], "-") && id == SQFS_COMP_GZIP) E.ccfg.opt.gzip.window_size = strtoul(argv[4], 0, 0);
+		if (argc >= 6 && strcmp(argv[5], "-")) E.ccfg.flags |= strtoul(argv[5], 0, 0);
 		if (unc) {
 			sqfs_compressor_config_t c2;
 			sqfs_compressor_config_init(&c2, id, 8192, 0);
@@ -184,6 +215,7 @@ static int setup(int argc, char **argv)	/* argv[0] = kind */
 	else if (!strcmp(k, "fragtable")) E.kind = K_FRAGT;
 	else if (!strcmp(k, "xwr")) { E.kind = K_XWR; if (argc >= 2) snprintf(E.tmpdir, sizeof(E.tmpdir), "%s", argv[1]); }
 	else if (!strcmp(k, "file") && argc >= 2) { E.kind = K_FILE; snprintf(E.path, sizeof(E.path), "%s", argv[1]); }
+	else if (!strcmp(k, "wfile") && argc >= 2) { E.kind = K_WFILE; snprintf(E.tmpdir, sizeof(E.tmpdir), "%s", argv[1]); }
 	else if (!strcmp(k, "meta") && argc >= 2) { E.kind = K_META; if (open_image(argv[1])) return -1; }
 	else if (!strcmp(k, "dir") && argc >= 3) { E.kind = K_DIR; E.dirflags = strtoul(argv[2], 0, 0); if (open_image(argv[1])) return -1; }
 	else if (!strcmp(k, "data") && argc >= 2) { E.kind = K_DATA; if (open_image(argv[1])) return -1; }
@@ -197,12 +229,122 @@ static int setup(int argc, char **argv)	/* argv[0] = kind */
 	return 0;
 }
 
+/* ------------------------------------------------------------------ what an object observes of itself */
+typedef struct { unsigned long long h; } hh_t;
+static void hh_init(hh_t *x) { x->h = 1469598103934665603ULL; }
+static void hh_add(hh_t *x, const void *p, size_t n)
+{
+	const unsigned char *b = p; size_t i;
+	for (i = 0; i < n; ++i) { x->h ^= b[i]; x->h *= 1099511628211ULL; }
+}
+static void hh_u64(hh_t *x, unsigned long long v) { hh_add(x, &v, sizeof(v)); }
+#define HH_FIELD(x, f) hh_add((x), &(f), sizeof(f))
+
+/* the struct's own plain fields: everything in it that is neither the object header nor a pointer to owned memory */
+static unsigned long long fields_hash(int kind, const void *o)
+{
+	hh_t x; hh_init(&x); hh_u64(&x, kind);
+	switch (kind) {
+	case K_COMP: {
+		const sqfs_compressor_t *b = o;
+		HH_FIELD(&x, b->get_configuration); HH_FIELD(&x, b->write_options); HH_FIELD(&x, b->read_options); HH_FIELD(&x, b->do_block);
+		switch (E.ccfg.id) {
+		case SQFS_COMP_GZIP: { const gzip_compressor_t *g = o; HH_FIELD(&x, g->compress); HH_FIELD(&x, g->block_size);
+			HH_FIELD(&x, g->opt.level); HH_FIELD(&x, g->opt.window); HH_FIELD(&x, g->opt.strategies); break; }
+		case SQFS_COMP_XZ: { const xz_compressor_t *z = o; HH_FIELD(&x, z->block_size); HH_FIELD(&x, z->dict_size); HH_FIELD(&x, z->level);
+			HH_FIELD(&x, z->lc); HH_FIELD(&x, z->lp); HH_FIELD(&x, z->pb); HH_FIELD(&x, z->flags); break; }
+		case SQFS_COMP_LZMA: { const lzma_compressor_t *z = o; HH_FIELD(&x, z->block_size); HH_FIELD(&x, z->dict_size); HH_FIELD(&x, z->flags);
+			HH_FIELD(&x, z->level); HH_FIELD(&x, z->lc); HH_FIELD(&x, z->lp); HH_FIELD(&x, z->pb); break; }
+		case SQFS_COMP_LZ4: { const lz4_compressor_t *z = o; HH_FIELD(&x, z->block_size); HH_FIELD(&x, z->high_compression); break; }
+		case SQFS_COMP_ZSTD: { const zstd_compressor_t *z = o; HH_FIELD(&x, z->block_size); HH_FIELD(&x, z->level); break; }
+		default: break;
+		}
+		break; }
+	case K_IDT: { const sqfs_id_table_t *t = o; HH_FIELD(&x, t->ids.size); HH_FIELD(&x, t->ids.used); break; }
+	case K_FRAGT: { const sqfs_frag_table_t *t = o; HH_FIELD(&x, t->table.size); HH_FIELD(&x, t->table.used); break; }
+	case K_FILE: case K_WFILE: { const sqfs_file_stdio_t *f = o; const sqfs_file_t *b = o;
+		HH_FIELD(&x, b->read_at); HH_FIELD(&x, b->write_at); HH_FIELD(&x, b->get_size); HH_FIELD(&x, b->truncate); HH_FIELD(&x, b->get_filename);
+		HH_FIELD(&x, f->readonly); HH_FIELD(&x, f->size);
+		if (kind == K_FILE) hh_add(&x, f->name, strlen(f->name) + 1);	/* (the writable twins have names of their own) */
+		break; }
+	case K_META: { const sqfs_meta_reader_t *m = o; HH_FIELD(&x, m->start); HH_FIELD(&x, m->limit); HH_FIELD(&x, m->data_used);
+		HH_FIELD(&x, m->block_offset); HH_FIELD(&x, m->next_block); HH_FIELD(&x, m->offset); hh_add(&x, m->data, sizeof(m->data)); break; }
+	case K_DIR: { const sqfs_dir_reader_t *d = o; hh_add(&x, &d->super, sizeof(d->super)); HH_FIELD(&x, d->flags);
+		if (d->flags & SQFS_DIR_READER_DOT_ENTRIES) { HH_FIELD(&x, d->dcache.key_size); HH_FIELD(&x, d->dcache.value_size); HH_FIELD(&x, d->dcache.key_compare); }
+		break; }
+	case K_DATA: { const sqfs_data_reader_t *d = o; HH_FIELD(&x, d->data_blk_size); HH_FIELD(&x, d->current_block); HH_FIELD(&x, d->current_block_word);
+		HH_FIELD(&x, d->frag_blk_size); HH_FIELD(&x, d->current_frag_index); HH_FIELD(&x, d->block_size); break; }
+	case K_XRD: { const sqfs_xattr_reader_t *r = o; HH_FIELD(&x, r->xattr_start); HH_FIELD(&x, r->xattr_end); HH_FIELD(&x, r->num_id_blocks);
+		HH_FIELD(&x, r->num_ids); break; }
+	case K_XWR: { const sqfs_xattr_writer_t *w = o; HH_FIELD(&x, w->kv_start); HH_FIELD(&x, w->num_blocks); HH_FIELD(&x, w->keys.next_index);
+		HH_FIELD(&x, w->values.next_index); HH_FIELD(&x, w->kv_pairs.size); HH_FIELD(&x, w->kv_pairs.used);
+		HH_FIELD(&x, w->kv_block_tree.key_size); HH_FIELD(&x, w->kv_block_tree.value_size); HH_FIELD(&x, w->kv_block_tree.key_compare); break; }
+	}
+	return x.h;
+}
+
+static void hh_strtable(hh_t *x, const str_table_t *t)
+{
+	size_t i;
+	hh_u64(x, t->bucket_ptrs.used);
+	for (i = 0; i < t->bucket_ptrs.used; ++i) {
+		const str_bucket_t *b = ((str_bucket_t **)t->bucket_ptrs.data)[i];
+		if (!b) { hh_u64(x, 0xdead); continue; }
+		hh_u64(x, b->index); hh_u64(x, b->refcount); hh_add(x, b->string, strlen(b->string) + 1);
+	}
+}
+
+static void hh_tree(hh_t *x, const rbtree_t *t, const rbtree_node_t *n, int xwr)
+{
+	if (!n) return;
+	hh_tree(x, t, n->left, xwr);
+	if (xwr) {	/* key = kv_block_desc_t: everything but the list pointer */
+		const kv_block_desc_t *d = rbtree_node_key((rbtree_node_t *)n);
+		hh_u64(x, d->start); hh_u64(x, d->count); hh_u64(x, d->start_ref); hh_u64(x, d->size_bytes);
+	} else hh_add(x, rbtree_node_key((rbtree_node_t *)n), t->key_size);
+	hh_add(x, rbtree_node_value((rbtree_node_t *)n), t->value_size);
+	hh_tree(x, t, n->right, xwr);
+}
+
+/* fields, the used part of every owned buffer (cached blocks: all block_size bytes, the readers index that far), and
+   the same for the objects it owns through deep references (shared file and compressor are not part of it) */
+static unsigned long long view_hash(int kind, const void *o)
+{
+	hh_t x;
+	if (!o) return 0;
+	hh_init(&x); hh_u64(&x, fields_hash(kind, o));
+	switch (kind) {
+	case K_IDT: { const sqfs_id_table_t *t = o; hh_add(&x, t->ids.data, t->ids.used * t->ids.size); break; }
+	case K_FRAGT: { const sqfs_frag_table_t *t = o; hh_add(&x, t->table.data, t->table.used * t->table.size); break; }
+	case K_DIR: { const sqfs_dir_reader_t *d = o;
+		if (d->flags & SQFS_DIR_READER_DOT_ENTRIES) hh_tree(&x, &d->dcache, d->dcache.root, 0);
+		hh_u64(&x, view_hash(K_META, d->meta_inode)); hh_u64(&x, view_hash(K_META, d->meta_dir)); break; }
+	case K_DATA: { const sqfs_data_reader_t *d = o;
+		hh_u64(&x, view_hash(K_FRAGT, d->frag_tbl));
+		hh_u64(&x, d->data_block != NULL); if (d->data_block) hh_add(&x, d->data_block, d->block_size);
+		hh_u64(&x, d->frag_block != NULL); if (d->frag_block) hh_add(&x, d->frag_block, d->block_size);
+		break; }
+	case K_XRD: { const sqfs_xattr_reader_t *r = o;
+		hh_u64(&x, r->id_block_starts != NULL); if (r->id_block_starts) hh_add(&x, r->id_block_starts, r->num_id_blocks * sizeof(sqfs_u64));
+		hh_u64(&x, view_hash(K_META, r->kvrd)); hh_u64(&x, view_hash(K_META, r->idrd)); break; }
+	case K_XWR: { const sqfs_xattr_writer_t *w = o; const kv_block_desc_t *it; size_t guard = 0;
+		hh_strtable(&x, &w->keys); hh_strtable(&x, &w->values);
+		hh_add(&x, w->kv_pairs.data, w->kv_pairs.used * w->kv_pairs.size);
+		hh_tree(&x, &w->kv_block_tree, w->kv_block_tree.root, 1);
+		for (it = w->kv_block_first; it && guard < 100000; it = it->next, ++guard) hh_u64(&x, it->start);
+		break; }
+	default: break;
+	}
+	return x.h;
+}
+
 /* ------------------------------------------------------------------ the probe: facts about a fresh copy */
 static const char *bufstate(const void *ob, const void *cb)
 {
 	if (cb == NULL) return ob == NULL ? "null" : "lost";
 	if (cb == ob) return "alias";
 	if (ob && malloc_usable_size((void *)cb) < malloc_usable_size((void *)ob)) return "trim";
+	if (ob && malloc_usable_size((void *)cb) > malloc_usable_size((void *)ob)) return "grow";
 	return "dup";
 }
 
@@ -258,34 +400,83 @@ static void snap_refs(const void *o, rcsnap_t *s)
 static void probe(const void *o, const void *c, const rcsnap_t *s, char *buf, size_t n)
 {
 	const sqfs_object_t *ob = o, *cb = c;
+	/* last buffer slot of every kind but the two tables: the struct's plain fields */
+	const char *fl = fields_hash(E.kind, o) == fields_hash(E.kind, c) ? "dup" : "differ";
 	int k = snprintf(buf, n, "rc=%zu destroy=%d copy=%d samehooks=%d", cb->refcount, cb->destroy != NULL, cb->copy != NULL,
 			 cb->destroy == ob->destroy && cb->copy == ob->copy);
 	switch (E.kind) {
+	case K_COMP: {
+		if (E.ccfg.id == SQFS_COMP_GZIP) { const gzip_compressor_t *a = o, *b = c;	/* slot 0: the state made by deflateInit2 / inflateInit */
+			snprintf(buf + k, n - k, " bufs=%s,%s refs=", b->strm.state == NULL ? "lost" : (b->strm.state == a->strm.state ? "alias" : "dup"), fl);
+		} else if (E.ccfg.id == SQFS_COMP_ZSTD) { const zstd_compressor_t *a = o, *b = c;
+			snprintf(buf + k, n - k, " bufs=%s,%s refs=", b->zctx == NULL ? "lost" : (b->zctx == a->zctx ? "alias" : "dup"), fl);
+		} else snprintf(buf + k, n - k, " bufs=%s refs=", fl);
+		break; }
 	case K_IDT: { const sqfs_id_table_t *a = o, *b = c; snprintf(buf + k, n - k, " bufs=%s refs=", bufstate_c(a->ids.data, b->ids.data, a->ids.used * a->ids.size)); break; }
 	case K_FRAGT: { const sqfs_frag_table_t *a = o, *b = c; snprintf(buf + k, n - k, " bufs=%s refs=", bufstate_c(a->table.data, b->table.data, a->table.used * a->table.size)); break; }
-	case K_FILE: { const sqfs_file_stdio_t *a = o, *b = c; snprintf(buf + k, n - k, " bufs=%s refs=", a->fd == b->fd ? "alias" : "dup"); break; }	/* slot 0 = the descriptor */
+	case K_FILE: { const sqfs_file_stdio_t *a = o, *b = c; snprintf(buf + k, n - k, " bufs=%s,%s refs=", a->fd == b->fd ? "alias" : "dup", fl); break; }	/* slot 0 = the descriptor */
 	case K_META: { const sqfs_meta_reader_t *a = o, *b = c;
-		snprintf(buf + k, n - k, " bufs= refs=%s,%s", refstate(a->file, b->file, s->rc[0]), refstate(a->cmp, b->cmp, s->rc[1])); break; }
+		snprintf(buf + k, n - k, " bufs=%s refs=%s,%s", fl, refstate(a->file, b->file, s->rc[0]), refstate(a->cmp, b->cmp, s->rc[1])); break; }
 	case K_DATA: { const sqfs_data_reader_t *a = o, *b = c;
-		snprintf(buf + k, n - k, " bufs=%s,%s refs=%s,%s,%s", bufstate_c(a->data_block, b->data_block, a->data_blk_size), bufstate_c(a->frag_block, b->frag_block, a->frag_blk_size),
+		/* contents are compared over all block_size bytes: the readers index the cached blocks that far */
+		snprintf(buf + k, n - k, " bufs=%s,%s,%s refs=%s,%s,%s", bufstate_c(a->data_block, b->data_block, a->block_size), bufstate_c(a->frag_block, b->frag_block, a->block_size), fl,
 			 refstate(a->frag_tbl, b->frag_tbl, s->rc[0]), refstate(a->file, b->file, s->rc[1]), refstate(a->cmp, b->cmp, s->rc[2])); break; }
-	case K_DIR: { const sqfs_dir_reader_t *a = o, *b = c;
-		snprintf(buf + k, n - k, " bufs=%s refs=%s,%s", (a->flags & SQFS_DIR_READER_DOT_ENTRIES) ? bufstate(a->dcache.root, b->dcache.root) : "null",
+	case K_DIR: { const sqfs_dir_reader_t *a = o, *b = c; const char *dc = "null";
+		if (a->flags & SQFS_DIR_READER_DOT_ENTRIES) {
+			hh_t x, y; hh_init(&x); hh_init(&y); hh_tree(&x, &a->dcache, a->dcache.root, 0); hh_tree(&y, &b->dcache, b->dcache.root, 0);
+			dc = bufstate(a->dcache.root, b->dcache.root);
+			if ((!strcmp(dc, "dup") || !strcmp(dc, "trim")) && x.h != y.h) dc = "differ";
+		}
+		snprintf(buf + k, n - k, " bufs=%s,%s refs=%s,%s", dc, fl,
 			 refstate(a->meta_inode, b->meta_inode, s->rc[0]), refstate(a->meta_dir, b->meta_dir, s->rc[1])); break; }
 	case K_XRD: { const sqfs_xattr_reader_t *a = o, *b = c;
-		snprintf(buf + k, n - k, " bufs=%s refs=%s,%s", bufstate_c(a->id_block_starts, b->id_block_starts, a->num_id_blocks * sizeof(sqfs_u64)),
+		snprintf(buf + k, n - k, " bufs=%s,%s refs=%s,%s", bufstate_c(a->id_block_starts, b->id_block_starts, a->num_id_blocks * sizeof(sqfs_u64)), fl,
 			 refstate(a->kvrd, b->kvrd, s->rc[0]), refstate(a->idrd, b->idrd, s->rc[1])); break; }
 	case K_XWR: { const sqfs_xattr_writer_t *a = o, *b = c;
-		/* buffers: key bucket array, value bucket array, pair array, tree root; self-references: list head/tail, tree context */
+		/* buffers: key bucket array, value bucket array, pair array, tree root, fields; self-references: list head/tail, tree context */
 		const char *first = b->kv_block_first == NULL ? (a->kv_block_first == NULL ? "null" : "lost") : (b->kv_block_first == a->kv_block_first ? "alias" : "own");
 		const char *last = b->kv_block_last == NULL ? (a->kv_block_last == NULL ? "null" : "lost") : (b->kv_block_last == a->kv_block_last ? "alias" : "own");
 		const char *ctx = b->kv_block_tree.key_context == (void *)b ? "own" : (b->kv_block_tree.key_context == (void *)a ? "alias" : "other");
-		/* 5th buffer slot: the struct's own fields (what key_context gives access to): always a fresh allocation */
-		snprintf(buf + k, n - k, " bufs=%s,%s,%s,%s,dup refs= self=%s,%s,%s", strtable_state(&a->keys, &b->keys),
+		const char *tr = bufstate(a->kv_block_tree.root, b->kv_block_tree.root);
+		if (!strcmp(tr, "dup") || !strcmp(tr, "trim")) {
+			hh_t x, y; hh_init(&x); hh_init(&y); hh_tree(&x, &a->kv_block_tree, a->kv_block_tree.root, 1); hh_tree(&y, &b->kv_block_tree, b->kv_block_tree.root, 1);
+			if (x.h != y.h) tr = "differ";
+		}
+		snprintf(buf + k, n - k, " bufs=%s,%s,%s,%s,%s refs= self=%s,%s,%s", strtable_state(&a->keys, &b->keys),
 			 strtable_state(&a->values, &b->values), bufstate_c(a->kv_pairs.data, b->kv_pairs.data, a->kv_pairs.used * a->kv_pairs.size),
-			 bufstate(a->kv_block_tree.root, b->kv_block_tree.root), first, last, ctx); break; }
+			 tr, fl, first, last, ctx); break; }
 	default: snprintf(buf + k, n - k, " bufs= refs="); break;
 	}
+}
+
+/* state dumps for the function-level comparison with `sqfsmodel c19 drcopy` / `mrcopy` */
+static void put_hex(const unsigned char *p, size_t n)
+{
+	static const char d[] = "0123456789abcdef"; size_t i;
+	if (!p) { putchar('N'); return; }
+	if (n == 0) { putchar('-'); return; }
+	for (i = 0; i < n; ++i) { putchar(d[p[i] >> 4]); putchar(d[p[i] & 15]); }
+}
+
+static void dump_state(const char *name, const void *o)
+{
+	if (!o) { out("dump %s none", name); return; }
+	if (E.kind == K_DATA) {
+		const sqfs_data_reader_t *d = o; size_t i, nt = sqfs_frag_table_get_size(d->frag_tbl);
+		printf("dump %s data bs=%u dsz=%zu cur=%llu word=%u fsz=%zu fidx=%u tbl=", name, d->block_size, d->data_blk_size,
+		       (unsigned long long)d->current_block, d->current_block_word, d->frag_blk_size, d->current_frag_index);
+		if (nt == 0) putchar('-');
+		for (i = 0; i < nt; ++i) { sqfs_fragment_t f; sqfs_frag_table_lookup(d->frag_tbl, i, &f); printf("%s%llu:%u", i ? "," : "", (unsigned long long)f.start_offset, f.size); }
+		printf(" dblk="); put_hex(d->data_block, d->block_size);
+		printf(" fblk="); put_hex(d->frag_block, d->block_size);
+		putchar('\n'); fflush(stdout);
+	} else if (E.kind == K_META) {
+		const sqfs_meta_reader_t *m = o;
+		printf("dump %s meta start=%llu limit=%llu tag=%llu next=%llu used=%zu off=%zu data=", name, (unsigned long long)m->start, (unsigned long long)m->limit,
+		       (unsigned long long)m->block_offset, (unsigned long long)m->next_block, m->data_used, m->offset);
+		put_hex(m->data, sizeof(m->data));
+		putchar('\n'); fflush(stdout);
+	} else out("dump %s unsupported", name);
 }
 
 /* ------------------------------------------------------------------ operations */
@@ -326,6 +517,12 @@ done:
 static void op_idt(sqfs_id_table_t *t, int argc, char **argv)
 {
 	if (argc >= 2 && !strcmp(argv[0], "add")) { sqfs_u16 idx = 0xffff; int r = sqfs_id_table_id_to_index(t, strtoul(argv[1], 0, 0), &idx); out("add %d %u", r, r ? 0 : idx); }
+	else if (argc >= 2 && !strcmp(argv[0], "fill")) {	/* set-up of a large table: ids 0 .. n-1 as n adds would leave them */
+		sqfs_u32 i, n = strtoul(argv[1], 0, 0);
+		if (t->ids.used != 0 || n > 0xFFFF) { out("bad-op"); return; }
+		for (i = 0; i < n; ++i) if (array_append(&t->ids, &i)) { out("fill failed"); return; }
+		out("fill %u", n);
+	}
 	else if (argc >= 2 && !strcmp(argv[0], "get")) { sqfs_u32 id = 0; int r = sqfs_id_table_index_to_id(t, strtoul(argv[1], 0, 0), &id); out("get %d %u", r, r ? 0 : id); }
 	else out("bad-op");
 }
@@ -346,7 +543,9 @@ static void op_file(sqfs_file_t *f, int argc, char **argv)
 		size_t n = strtoul(argv[2], 0, 0); unsigned char *b = __real_calloc(1, n + 1); char hb[128];
 		int r = f->read_at(f, strtoull(argv[1], 0, 0), b, n);
 		put_bytes(hb, sizeof(hb), b, r ? 0 : n); out("read %d %s", r, hb); free(b);
-	} else if (argc >= 1 && !strcmp(argv[0], "size")) out("size %llu %s", (unsigned long long)f->get_size(f), strrchr(f->get_filename(f), '/') ? strrchr(f->get_filename(f), '/') + 1 : f->get_filename(f));
+	} else if (argc >= 1 && !strcmp(argv[0], "size")) out("size %llu %s", (unsigned long long)f->get_size(f),
+			/* (the writable twins have names of their own) */
+			E.kind == K_WFILE ? "-" : strrchr(f->get_filename(f), '/') ? strrchr(f->get_filename(f), '/') + 1 : f->get_filename(f));
 	else out("bad-op");
 }
 
@@ -475,7 +674,7 @@ static void do_op(int t, int argc, char **argv)
 	case K_COMP: op_comp(ob, argc, argv); break;
 	case K_IDT: op_idt(ob, argc, argv); break;
 	case K_FRAGT: op_fragt(ob, argc, argv); break;
-	case K_FILE: op_file(ob, argc, argv); break;
+	case K_FILE: case K_WFILE: op_file(ob, argc, argv); break;
 	case K_META: op_meta(ob, argc, argv); break;
 	case K_DIR: op_dir(ob, argc, argv); break;
 	case K_DATA: op_data(ob, argc, argv); break;
@@ -518,6 +717,15 @@ static void run_line(char *line)
 	if (!strcmp(argv[0], "ungrab") && argc >= 2 && (t = target(argv[1])) >= 0 && E.obj[t]) {	/* drop that is not the last one */
 		sqfs_drop(E.obj[t]); out("ungrab %s %zu", argv[1], rc_of(E.obj[t])); return;
 	}
+	if (!strcmp(argv[0], "views")) {	/* what each live object observes of itself (fields, own buffers, owned sub-objects) */
+		char b[256]; int k = snprintf(b, sizeof(b), "views"), i;
+		for (i = 0; i < NOBJ; ++i) {
+			if (E.obj[i]) k += snprintf(b + k, sizeof(b) - k, " %s=%016llx", objname[i], view_hash(E.kind, E.obj[i]));
+			else k += snprintf(b + k, sizeof(b) - k, " %s=-", objname[i]);
+		}
+		out("%s", b); return;
+	}
+	if (!strcmp(argv[0], "dump") && argc >= 2 && (t = target(argv[1])) >= 0) { dump_state(argv[1], E.obj[t]); return; }
 	if (!strcmp(argv[0], "rcs")) { out("rcs file=%zu cmp=%zu fds=%d", rc_of(E.file), rc_of(E.cmp), count_fds()); return; }
 	if (!strcmp(argv[0], "dropenv")) {	/* the user's own references to file/compressor go away: readers hold the last ones */
 		E.file = sqfs_drop(E.file); E.cmp = sqfs_drop(E.cmp);
